@@ -16,6 +16,7 @@ def dataset(ds):
   return D.well_formed(rng, d=ds.get('d'), n_classes=ds.get('classes'),
                        variant=ds.get('variant', 'plain'),
                        nmax=ds.get('nmax'), dmax=ds.get('dmax', 8),
+                       nmin=ds.get('nmin'),
                        # unless the spec says otherwise the label alphabet
                        # and the memory order vary with the dataset seed
                        labels=ds.get('labels', ['range', 'sparse']
